@@ -126,9 +126,9 @@ func payloadOf(o Offer) ([]byte, error) {
 	if o.Age == "stale" {
 		ts = ts.Add(-30 * 24 * time.Hour)
 	}
-	art := "widget artifact, content A"
+	art := string(ArchiveOf("widget", "widget artifact, content A"))
 	if o.Content == "B" {
-		art = "widget artifact, content B (another build)"
+		art = string(ArchiveOf("widget", "widget artifact, content B (another build)"))
 	}
 	pubr := index.Publisher{ExpectedOIDCIssuer: "https://token.actions.githubusercontent.com",
 		ExpectedIdentityPattern: `^https://github\.com/example/widget/.*$`}
@@ -139,7 +139,7 @@ func payloadOf(o Offer) ([]byte, error) {
 					URL: "https://verif.invalid/widget/artifact.tar.gz", SHA256: sha(art), Size: int64(len(art)),
 					Signature: index.SignatureRef{BundleURL: "https://verif.invalid/widget/sig.json"}}}}}}}}
 	if o.Content == "P" {
-		mod := "gadget processor module"
+		mod := string(ArchiveOf("gadget.wasm", "gadget processor module"))
 		p.Processors = []index.Processor{{Name: "gadget", Publisher: pubr,
 			Versions: []index.ProcessorVersion{{Version: "1.0.0", MinConduitVersion: "0.1.0", MinProtocolVersion: "0.1.0",
 				Artifact: index.Artifact{OS: "wasip1", Arch: "wasm", Kind: creg.WASMProcessorArtifactKind,
